@@ -295,7 +295,7 @@ def _infer(pm, v):
 def _is5060(pm, v):
     spd = v["spd"][0] / v["spd"][1]
     trk = v["trk"][0] / v["trk"][1]
-    return enc.res(pm.bds.is50or60(hx(v), spd, trk, 0))
+    return enc.res(pm.bds.is50or60(hx(v), spd, trk, v.get("alt", 0)))
 
 
 # ---- common helpers (C14, C15) and tell ----
@@ -632,9 +632,16 @@ def _a_order(pm, v):
 def _a_dist(pm, v):
     import math
     a = pm.aero
-    d12 = float(a.distance(v["la1"], v["lo1"], v["la2"], v["lo2"]))
-    d21 = float(a.distance(v["la2"], v["lo2"], v["la1"], v["lo1"]))
-    hav = (1 - math.cos(d12 / 6371000.0)) / 2
+    import numpy as np
+    H = v.get("H", 0)
+    if v.get("arr"):
+        d12 = float(a.distance(np.array([v["la1"]] * 2), np.array([v["lo1"]] * 2), np.array([v["la2"]] * 2), np.array([v["lo2"]] * 2), H)[1])
+    elif H:
+        d12 = float(a.distance(v["la1"], v["lo1"], v["la2"], v["lo2"], H))
+    else:
+        d12 = float(a.distance(v["la1"], v["lo1"], v["la2"], v["lo2"]))
+    d21 = float(a.distance(v["la2"], v["lo2"], v["la1"], v["lo1"], H))
+    hav = (1 - math.cos(d12 / (6371000.0 + H))) / 2
     brg = float(a.bearing(v["la1"], v["lo1"], v["la2"], v["lo2"]))
     return {"t": "obs", "d12": int(round(d12 * 10)), "d21": int(round(d21 * 10)), "hav": int(round(hav * 1e4)),
             "brg": int(math.floor(brg * 1000))}
